@@ -44,6 +44,24 @@ REQUIRED = [
     "DaeVerif.C18.Props.unknown_name_requests_probe",
     "DaeVerif.C18.Props.probe_outcomes",
     "DaeVerif.C18.Props.second_probe_is_noop",
+    # phase 3: asynchronous probe, janitor sweep, generations, faults, handleConn, sniff negative cache
+    "DaeVerif.C18.Props.probe_is_start_then_finish",
+    "DaeVerif.C18.Props.negative_entry_stamped_from_probe_start",
+    "DaeVerif.C18.Props.one_probe_in_flight_per_name",
+    "DaeVerif.C18.Props.trigger_joins_probe_in_flight",
+    "DaeVerif.C18.Props.negative_set_has_one_entry_per_name",
+    "DaeVerif.C18.Props.neg_cleanup_invisible",
+    "DaeVerif.C18.Props.new_generation_keeps_only_dns_knowledge",
+    "DaeVerif.C18.Props.dns_update_fault_all_or_nothing",
+    "DaeVerif.C18.Props.sniff_policy",
+    "DaeVerif.C18.Props.conn_not_sniffed_dials_ip",
+    "DaeVerif.C18.Props.conn_suppressed_dials_ip",
+    "DaeVerif.C18.Props.conn_sniffed_is_dialled_by_the_table",
+    "DaeVerif.C18.Props.sniffed_host_value_target",
+    "DaeVerif.C18.Props.conn_missing_tuple_routes_in_userspace",
+    "DaeVerif.C18.Props.dial_mark_follows_reroute",
+    "DaeVerif.C18.Props.sniff_suppression_needs_threshold_failures",
+    "DaeVerif.C18.Props.sniff_success_clears_and_entries_expire",
 ]
 
 
@@ -72,7 +90,7 @@ def run(ctx):
     ctx.prove(["DaeVerif.C18.Props"], ["DaeVerif.C18.Props"], ["DaeVerif/C18/*.lean"], extra_targets=["c18drv"])
     ctx.required_theorems(REQUIRED)
 
-    binp = ctx.go_test_build("control", ["control/c18_test.go"], "c18")
+    binp = ctx.go_test_build("control", ["control/c18_test.go", "control/c18_conn_test.go"], "c18")
     if not binp:
         return 2
     rc, out = ctx.run_harness(binp, "TestVerifC18")
@@ -82,6 +100,11 @@ def run(ctx):
         return 2
     if not ctx.driver("c18drv", ops, model):
         ctx.proof_failures.append("model driver c18drv failed to run")
+    # a failure of the harness's own scaffolding (kernel map update …) is no evidence either way
+    hfail = [(o, i) for o, i in zip(read_lines(ops), read_lines(impl)) if i.startswith("harness:")]
+    if hfail:
+        ctx.say("HARNESS-FAILED", "; ".join(f"`{o[:120]}` -> {i}" for o, i in hfail[:3]))
+        return 2
     mism = ctx.diff_streams(ops, impl, model, "c18")
 
     # the production constructor of the verified-name filter (the harness builds its ControlPlane by literal)
@@ -109,7 +132,7 @@ def run(ctx):
     n_decisions = 0
     for op, im in zip(ops_l, impl_l):
         kind = op.split(" ", 1)[0]
-        if kind in ("cdt", "dial"):
+        if kind in ("cdt", "dial", "conn", "cdth"):
             n_decisions += 1
             distinct.add(op)
         if " ORACLE:" in im:
@@ -136,7 +159,7 @@ def run(ctx):
         start = ln - 1
         while start > 0 and ops_l[start - 1] != "reset":
             start -= 1
-        prefix = ops_l[max(start - 1, 0):ln] if op.split(" ", 1)[0] in ("cdt", "dial", "has", "look", "dns", "rm", "rmf", "evict", "reload", "close", "dnsresp") else [op]
+        prefix = ops_l[max(start - 1, 0):ln] if op.split(" ", 1)[0] in ("cdt", "dial", "has", "look", "dns", "rm", "rmf", "evict", "reload", "close", "dnsresp", "conn", "connend", "cdth", "rel", "relx", "gen", "negclean", "sneg", "cdt2", "pick") else [op]
         ctx.report(f"implementation differs from proved model at line {ln}: op `{op}` impl `{im}` model `{mo}`",
                    {"stream": "c18", "line": ln, "op": op, "impl": im, "model": mo, "episode": prefix[-60:],
                     "replay": "VERIF_SEED=%d ./check C18 %s  (the op stream is a function of the seed)" % (ctx.seed, ctx.tier)})
@@ -171,10 +194,23 @@ def run(ctx):
               "op.rmf": 300, "op.evict": 200, "op.reload": 60, "op.close": 60, "probe.timeout-scripted": 100,
               "op.sat": 1, "op.has.true": 200, "cdt.probe": 300, "op.pipe-scenario": 50, "op.dnsresp.name-with-bar": 100,
               "op.dns.name-with-bar": 100, "dial.refused-or-timeout": 200, "pick.udp.rerouted": 50,
-              "pick.udp.mode.domain": 100, "pick.udp.mode.ip": 30}
+              "pick.udp.mode.domain": 100, "pick.udp.mode.ip": 30,
+              # phase 3
+              "conn.kernel-tuple": 1000, "conn.tuple-missing": 100, "conn.kind.http": 300, "conn.kind.tls": 250,
+              "conn.kind.silent": 150, "conn.kind.opaque": 200, "conn.kind.httpnohost": 150, "conn.kind.tlsnosni": 150,
+              "conn.mode.ip": 200, "conn.mode.domain": 600, "conn.mode.domain+": 200, "conn.mode.domain++": 200,
+              "conn.result.name-dialled": 80, "conn.result.routed-in-userspace": 200, "conn.local-addr-ipv4-mapped": 250,
+              "conn.sniff-suppressed": 120, "conn.sniff-suppressed.sniffable-payload": 70, "conn.burst": 120,
+              "op.cdth.probe-held": 150, "op.cdth.joined-the-probe-in-flight": 8, "op.rel": 120, "op.rel.after-time-passed": 20,
+              "op.held-expired": 12, "op.adv.while-probe-held": 30, "op.slow-probe-scenario": 60,
+              "op.gen.reuse": 150, "op.gen.restore": 150, "op.gen.with-probe-in-flight": 10,
+              "op.negclean": 150, "op.negclean.kept-live": 15, "op.sneg": 150, "op.sneg.entry": 10,
+              "op.dns.fault1": 70, "op.dns.fault2": 70, "op.dnsresp.fault1": 35, "op.dnsresp.fault2": 35, "op.reload.fault2": 8,
+              "dial.rerouted.mark-replaced": 70}
     low = {k: (stats["counters"].get(k, 0), v) for k, v in FLOORS.items() if stats["counters"].get(k, 0) < v}
     ctx.cov["floors"] = FLOORS
-    ctx.samples = (stats["samples"] or []) + [o for o in ops_l if o.startswith(("cdt", "dial"))][:6] + ops_l[300:303]
+    ctx.samples = (stats["samples"] or []) + [o for o in ops_l if o.startswith(("cdt ", "dial "))][:5] + \
+        [o for o in ops_l if o.startswith("conn ")][:4] + [o for o in ops_l if o.startswith(("cdth ", "rel ", "gen "))][:3] + ops_l[300:302]
     ctx.cov["input_distribution"] = stats["counters"]
     ctx.cov["decisions"] = n_decisions
     ctx.assumptions = [
